@@ -152,7 +152,8 @@ def make_variant(base, rng, reference=False):
         # a pair of names that do not ask for one format is written in the input format - known finding KF-C06-2)
         side_ = rng.choice(["-o", "-p"])
         other_ = next((g for g in outs if g[0] in ("-o", "-p") and g[0] != side_), None)
-        if other_ is not None and fmt.container_of(other_[1]) in ("", ".zst"):
+        if (other_ is not None and fmt.container_of(other_[1]) in ("", ".zst")
+                and not other_[1].rsplit("/", 1)[-1].startswith(".")):  # (dnaio does not see an extension in '.fa')
             # (.gz/.bz2/.xz writers do not expose their name: the same known finding at one core)
             for g in outs:
                 if g[0] == side_:
